@@ -90,3 +90,89 @@ Proof.
     apply (filter_ext_forallb _ _ _ contents Gs). intros x Hx. apply book_in_is_ref; assumption. }
   rewrite E, H. cbn [andb]. apply kv_list_eqb_eq in H. rewrite H. reflexivity.
 Qed.
+
+(* ---------- the lossy scenario: one clause of C08x_ok follows from agreement ---------- *)
+(* CaseLossy (public API, WithBackpressure(false) + include): if the observed stream agrees with
+   seeds ++ include(m_run(schedule)), nothing in it mentions a version the predicate rejects.
+   (The other three clauses -- fold = List, seeds first, old-value chain -- need the token reading
+   of the run_c history and stay oracle clauses.) *)
+From SC Require Import Resource.IncludeMatchProofs.
+
+Definition cc_accepts (p : pred) (c : cchange fmsg) : Prop :=
+  (forall m, cc_old c = Some m -> interp_pred p (cc_id c) (Some m) = true) /\
+  (forall m, cc_new c = Some m -> interp_pred p (cc_id c) (Some m) = true).
+
+Definition oc_accepts (p : pred) (o : ochange) : bool :=
+  match oc_old o with Some m => interp_pred p (oc_id o) (Some m) | None => true end &&
+  match oc_new o with Some m => interp_pred p (oc_id o) (Some m) | None => true end.
+
+Lemma oc_accepts_of_cc p o : cc_accepts p (to_cc o) -> oc_accepts p o = true.
+Proof.
+  unfold cc_accepts, to_cc, oc_accepts. cbn [cc_id cc_old cc_new]. intros [Ho Hn].
+  destruct (oc_old o) as [a|]; destruct (oc_new o) as [b|]; cbn [andb];
+    rewrite ?(Ho _ eq_refl), ?(Hn _ eq_refl); reflexivity.
+Qed.
+
+Lemma seeds_accept p (ro : fro) (l : list (string * item fmsg)) :
+  r_mask ro = None -> r_include ro = Some p ->
+  Forall (cc_accepts p) (seeds fr_filter (to_ropts ro) (included (to_ropts ro) l)).
+Proof.
+  intros Hm Hi. unfold included, to_ropts. cbn [ro_include]. rewrite Hi. cbn [option_map].
+  induction l as [|[k it] r IH]; cbn [filter]; [constructor|].
+  cbn [fst snd]. destruct (interp_pred p k (Some (it_body it))) eqn:E; [|exact IH].
+  cbn [seeds]. constructor; [|exact IH].
+  unfold cc_accepts. cbn [cc_id cc_old cc_new]. split; [intros m Hm'; discriminate|].
+  intros m Hm'. inversion Hm'. subst m. unfold filt. cbn [ro_mask]. rewrite Hm. exact E.
+Qed.
+
+Lemma forallb_of_matched_seeds p cs : forall stream,
+  Forall (cc_accepts p) cs -> list_match cc_matches cs stream = true -> forallb (oc_accepts p) stream = true.
+Proof.
+  intros stream F H. apply list_match_to_cc in H. subst cs.
+  induction stream as [|o r IH]; [reflexivity|].
+  inversion F as [|? ? Fo Fr]. subst. cbn [forallb]. rewrite (oc_accepts_of_cc p o Fo). apply IH. exact Fr.
+Qed.
+
+Lemma got_accepts tbl p (ro : fro) c o :
+  r_mask ro = None -> matching (tok_pred tbl p) c -> got_matches tbl ro c o = true -> oc_accepts p o = true.
+Proof.
+  intros Hm (Mo & Mn & _). unfold got_matches. intros H.
+  repeat (apply andb_prop in H; let H' := fresh "H" in destruct H as [H H']).
+  apply String.eqb_eq in H. apply ofm_eqb_eq in H3, H2.
+  unfold filt, to_ropts in H3, H2. cbn [ro_mask] in H3, H2. rewrite Hm in H3, H2.
+  unfold oc_accepts. rewrite <- H, <- H3, <- H2. unfold tok_pred in Mo, Mn.
+  destruct (cold c) as [a|]; destruct (cnew c) as [b|]; cbn [option_map andb];
+    try (pose proof (Mo _ eq_refl) as Xo; cbn [option_map] in Xo; rewrite Xo);
+    try (pose proof (Mn _ eq_refl) as Xn; cbn [option_map] in Xn; rewrite Xn); reflexivity.
+Qed.
+
+Lemma forallb_of_matched_got tbl p (ro : fro) got : forall rest,
+  r_mask ro = None -> Forall (matching (tok_pred tbl p)) got ->
+  list_match (got_matches tbl ro) got rest = true -> forallb (oc_accepts p) rest = true.
+Proof.
+  induction got as [|c r IH]; intros [|o s] Hm F H; cbn in H; try discriminate; [reflexivity|].
+  apply andb_prop in H. destruct H as [H1 H2]. inversion F as [|? ? Fc Fr]. subst.
+  cbn [forallb]. rewrite (got_accepts tbl p ro c o Hm Fc H1). apply IH; assumption.
+Qed.
+
+Theorem judge08x_sound_lossy_matching_partial what before ro phases stream final :
+  agrees (CaseLossy what before ro phases stream final) = true ->
+  le_guard (lossy_model before ro phases) = true ->
+  mentions_only_matching ro stream = true.
+Proof.
+  cbn [agrees]. intros H G. rewrite G in H.
+  unfold mentions_only_matching.
+  destruct (r_mask ro) eqn:Hm; [reflexivity|]. destruct (r_include ro) as [p|] eqn:Hi; [|reflexivity].
+  change (forallb (oc_accepts p) stream = true).
+  apply andb_prop in H. destruct H as [H _]. apply andb_prop in H. destruct H as [Hs Hg].
+  rewrite <- (firstn_skipn (List.length (le_seeds (lossy_model before ro phases))) stream).
+  rewrite forallb_app. apply andb_true_intro. split.
+  - eapply forallb_of_matched_seeds; [|exact Hs].
+    unfold lossy_model. destruct (run_c None None c_init before) as [s1 o1].
+    destruct (phase_events s1 phases) as [pevs s2]. cbn [le_seeds].
+    destruct (r_updates_only ro); [constructor|]. apply seeds_accept; assumption.
+  - eapply forallb_of_matched_got; [exact Hm| |exact Hg].
+    unfold lossy_model. destruct (run_c None None c_init before) as [s1 o1].
+    destruct (phase_events s1 phases) as [pevs s2]. cbn [le_got]. rewrite Hi. cbn [option_map].
+    apply lossy_all_matching.
+Qed.
